@@ -89,7 +89,7 @@ spec("C02", "Config-class round trip",
 
 spec("C03", "Function / method round trip",
      [named(O.rule_order, "rule_order_function", only=("emit.function",)), A.rule_align_emit, A.rule_align_parse, TB.rule_table_kind, N.rule_null1, N.rule_null2,
-      scoped(FA.rule_falsy, "falsy_function", "emit.function", "parse.function"), named(FW.rule_fwd, "rule_fwd", accepted=FWD_ACCEPTED), det3("function", "emit.function", "parse.function")],
+      scoped(FA.rule_falsy, "falsy_function", "emit.function", "parse.function"), named(FW.rule_fwd, "rule_fwd", accepted=FWD_ACCEPTED), O.rule_kwarg_last, det3("function", "emit.function", "parse.function")],
      "Necessary conditions: (ORDER) one argument per non-**kwargs parameter in order, named by the key, with the name-only **kwargs partition and its complement both "
      "consumed; (ALIGN-emit) defaults/kw_defaults are built one per argument from the same sequence (symbolic length identities over all paths); (ALIGN-parse) "
      "signature defaults are padded to exactly the argument count and keep their positions; (TABLE-kind) self/cls/static and the **kwargs suffix agree between "
@@ -121,10 +121,10 @@ spec("C06", "Emitted code is valid Python",
 
 spec("C07", "Parsing faithful to Python's view",
      [lambda prog, rep, tier: D.rule_det1(prog, rep, tier, scope=prog.reachable([prog.fn("parse.function"), prog.fn("parse.class_")]), accepted=DET1_ACCEPTED),
-      A.rule_align_parse, O.rule_sigcover, O.rule_first_match, det3("parse", "parse.function", "parse.class_")],
+      A.rule_align_parse, O.rule_sigcover, O.rule_first_match, O.rule_kwarg_last, det3("parse", "parse.function", "parse.class_")],
      "Necessary conditions: (DET-1) on the parse path no iteration order of an unordered collection reaches the parameter mapping (order independent of run-to-run "
      "variation); (ALIGN-parse) signature defaults stay aligned with their arguments; (SIGCOVER) args, kwonlyargs and **kwarg each reach the result on some read that "
-     "is not guarded by docstring-derived data; (FIRST-MATCH) the method merged into a class is the first definition of that name in breadth-first order (the class's own, not a nested class's). (DET-3, scoped) no function on this property's code path writes state that outlives the call (module globals/objects, function or class attributes, mutated mutable defaults, memoised mutable results): the conversion is not history-dependent.",
+     "is not guarded by docstring-derived data; (FIRST-MATCH) the method merged into a class is the first definition of that name in breadth-first order (the class's own, not a nested class's). (KWARG-LAST) a documented `**kwargs` is out of the parameter mapping while the signature merge appends the undocumented parameters and is inserted (or moved to the end) afterwards, so it stays the last parameter as in the signature. (DET-3, scoped) no function on this property's code path writes state that outlives the call (module globals/objects, function or class attributes, mutated mutable defaults, memoised mutable results): the conversion is not history-dependent.",
      floors={"DET-1": 2, "ALIGN-parse": 1, "SIGCOVER": 3},
      technique="unordered-value dataflow with order-sensitive-effect classification; length algebra; guard (control-dependence) analysis of signature reads",
      not_decided="that the order is the source order (documented-first is value-level), precedence of documented information, prose attribution, the inspect path")
